@@ -2,6 +2,7 @@
 from __future__ import annotations
 
 import copy
+import json
 import re
 from typing import Any, Dict, Iterator, List, Tuple
 
@@ -121,6 +122,57 @@ def mutate_expr(expr: str, names: List[str]) -> Iterator[Tuple[str, str]]:
         yield "expr_wrap", f"({expr}) + 1.0"
 
 
+def ast_mutations(expr: str) -> Iterator[Tuple[str, str]]:
+    """Single-point changes of the expression tree that change its meaning: operands of a non-commutative operator or of a
+    chained comparison exchanged, branches of a conditional exchanged, a comparison operator or min/max replaced.
+    Operands that are equal up to +/* commutation are never exchanged (that would be a cosmetic rewrite)."""
+    import ast
+
+    try:
+        tree = ast.parse(expr, mode="eval")
+    except SyntaxError:
+        return
+
+    def key(n: ast.AST) -> str:
+        return json.dumps(yamlrw.normalise_expressions([{"derive": {"parameter_sweep": {"parameters": {"x": ast.unparse(n)}}}}]), sort_keys=True, default=str)
+
+    nodes = [n for n in ast.walk(tree)]
+    for idx, n in enumerate(nodes):
+        def variant(edit) -> str:
+            t2 = ast.parse(expr, mode="eval")
+            m = [x for x in ast.walk(t2)][idx]
+            edit(m)
+            return ast.unparse(ast.fix_missing_locations(t2))
+
+        if isinstance(n, ast.BinOp) and isinstance(n.op, (ast.Sub, ast.Div, ast.FloorDiv, ast.Mod, ast.Pow)) and key(n.left) != key(n.right):
+            def e(m):
+                m.left, m.right = m.right, m.left
+            yield "expr_swap_noncommutative", variant(e)
+        elif isinstance(n, ast.Compare):
+            ops = [type(o) for o in n.ops]
+            terms = [n.left] + list(n.comparators)
+            if len(terms) >= 3 and not all(o is ast.Eq for o in ops) and key(terms[1]) != key(terms[2]):
+                def e(m):
+                    m.comparators[0], m.comparators[1] = m.comparators[1], m.comparators[0]
+                yield "expr_chain_operands", variant(e)
+            if len(terms) >= 3 and ops[0] is not ops[1]:
+                def e(m):
+                    m.ops[0], m.ops[1] = m.ops[1], m.ops[0]
+                yield "expr_chain_operators", variant(e)
+            if any(o in (ast.Lt, ast.Gt, ast.LtE, ast.GtE) for o in ops) and len(terms) == 2 and key(terms[0]) != key(terms[1]):
+                def e(m):
+                    m.left, m.comparators[0] = m.comparators[0], m.left
+                yield "expr_swap_ordering", variant(e)
+        elif isinstance(n, ast.IfExp) and key(n.body) != key(n.orelse):
+            def e(m):
+                m.body, m.orelse = m.orelse, m.body
+            yield "expr_swap_branches", variant(e)
+        elif isinstance(n, ast.Call) and isinstance(n.func, ast.Name) and n.func.id in ("min", "max") and len(n.args) >= 2 and key(n.args[0]) != key(n.args[1]):
+            def e(m):
+                m.func.id = "max" if m.func.id == "min" else "min"
+            yield "expr_min_max", variant(e)
+
+
 def mutations(case: Dict[str, Any]) -> Iterator[Tuple[str, int, Dict[str, Any], List[int]]]:
     """Yield (operator, position, mutated case, indexes of affected nodes in the ORIGINAL / mutant as applicable)."""
     nodes = case["nodes"]
@@ -226,7 +278,7 @@ def mutations(case: Dict[str, Any]) -> Iterator[Tuple[str, int, Dict[str, Any], 
             yield "sweep_wrapped_processor", i, c, [i]
         names = list(sw["vars"])
         for pname, expr in sw.get("params", {}).items():
-            for op, ne in mutate_expr(expr, names):
+            for op, ne in list(mutate_expr(expr, names)) + list(ast_mutations(expr)):
                 if yamlrw.normalise_expressions([{"derive": {"parameter_sweep": {"parameters": {"x": ne}}}}]) == \
                         yamlrw.normalise_expressions([{"derive": {"parameter_sweep": {"parameters": {"x": expr}}}}]):
                     continue
@@ -249,6 +301,8 @@ def mutations(case: Dict[str, Any]) -> Iterator[Tuple[str, int, Dict[str, Any], 
             elif spec["kind"] == "values":
                 for j in range(len(spec["values"])):  # every position, interior ones included
                     vals = list(spec["values"])
+                    if vals[j] + 1.0 == vals[j]:
+                        continue  # inf + 1 is inf: not a change
                     vals[j] = vals[j] + 1.0
                     yield mv("values", vals, "sequence_element")
                 yield mv("values", list(spec["values"]) + [7.0], "sequence_length")
@@ -260,6 +314,9 @@ def mutations(case: Dict[str, Any]) -> Iterator[Tuple[str, int, Dict[str, Any], 
                         yield mv("values", sw2, "sequence_swap_adjacent")
                 if len(vals) >= 2 and vals != vals[::-1]:
                     yield mv("values", vals[::-1], "sequence_reversed")
+                if vals and all(isinstance(x, float) and x == x and abs(x) < 1e15 and x == int(x) for x in vals) and not spec.get("np"):
+                    # same numbers, other YAML type: the elements the sweep produces differ in type (1 vs 1.0)
+                    yield mv("values", [int(x) for x in vals], "sequence_retyped")
             else:
                 other = [k for k in ("seq", "t_values", "a", "b") if k != spec["key"] and all(
                     not (s["kind"] == "ctx" and s["key"] == k) for s in sw["vars"].values())]
@@ -358,7 +415,8 @@ OPS = ["processor", "processor_template_text", "processor_slice_wrapped", "proce
        "sweep_var_steps", "sweep_var_scale", "sweep_var_endpoint", "sweep_var_sequence_element", "sweep_var_from_context_key",
        "sweep_mode", "sweep_broadcast", "sweep_collection",
        "param_str_trailing_space", "param_str_leading_space", "param_str_case", "param_float_ulp", "param_float_sign", "param_list_reversed", "param_list_length",
-       "param_dict_key", "sweep_var_sequence_swap_adjacent", "sweep_var_sequence_reversed"]
+       "param_dict_key", "sweep_var_sequence_swap_adjacent", "sweep_var_sequence_reversed",
+       "sweep_var_sequence_retyped", "sweep_expr_swap_noncommutative", "sweep_expr_chain_operands", "sweep_expr_swap_branches", "sweep_expr_min_max"]
 
 
 def label_requirements(tier: str) -> Dict[str, Any]:
